@@ -691,10 +691,14 @@ func c12frames(st *c12state, cat string, r *rand.Rand) [][]byte {
 			b.Str(strings.Repeat("[", depth) + "i" + strings.Repeat("]", depth))
 			b.U32(0)
 		default:
-			// elements that take no room on the wire
-			b.Str([]string{"[v]", "[[v]]"}[k%8-6])
-			b.U32(0xfffffff0)
+			// elements that take no room on the wire: nothing, empty
+			// structures, pairs of nothing
 			if k%8 == 7 {
+				b.Str("[[v]]")
+				b.U32(0xfffffff0)
+				b.U32(0xfffffff0)
+			} else {
+				b.Str([]string{"[v]", "[()]", "{vv}"}[k/8])
 				b.U32(0xfffffff0)
 			}
 		}
